@@ -155,6 +155,8 @@ def run(chk):
         for w in sorted(want):
             r5.check(w in pairs, 'flag %#x' % (w[0] or 0), g.loc, 'cpu_feature_adjust: flag %#x does not clear exactly feature bit %#x (found %s)' % (w[0] or 0, w[1] or 0, pairs))
         r5.check(len(pairs) == len(want), 'count', g.loc, 'cpu_feature_adjust has %d conditional clears, expected %d' % (len(pairs), len(want)))
+    from . import clones
+    clones.rule_clones(chk, 'N1', floor=100)
     # R3b shared with C20
     from . import c20
     c20.run_f1(chk, P)
